@@ -31,7 +31,8 @@ Decided:
   R15.g  an exception of the middleware's own (explicit raise, ``request.args[k]``-style lookups) is dominated by its
          trigger: a test on the request whose other side is a pure pass-through and under which its changes sit (c15_paths).
   R15.h  a render hook (parameter ``context``) fills only keys the endpoint left unset: each ``context[k] = v`` sits where the path
-         condition, with the middleware's own switches at their constructor defaults, entails ``k not in context`` (c15_paths).
+         condition, with the middleware's own switches at their constructor defaults, entails ``k not in context`` (c15_paths);
+         ``context.get(k, _S) is _S`` with ``_S`` a module-level sentinel that never leaves its lookups counts as that presence test.
   R15.i  parse sites fed with request data (base64 / codec decoding, loads, int / float, configured type callables), in the hook or
          in the tree / pinned-library functions it calls (receiver classes from self / cls / super() / class attributes), are caught
          on the way up (c15_parse).
